@@ -70,6 +70,15 @@ func (z *Zipper) ComputeDiff() (*ZipperArtifacts, error) {
 	z.newCanon = ir.AcquireCanonicalizer(z.policy)
 	defer ir.ReleaseCanonicalizer(z.newCanon)
 
+	// A function literal is referenced by its position under the enclosing function;
+	// its content has to be part of the reference, or an edit inside a closure is
+	// invisible in the function that creates it.
+	litFingerprint := func(lit *ssa.Function) string {
+		return GenerateFingerprint(lit, z.policy, false).Fingerprint
+	}
+	z.oldCanon.FuncLitFingerprint = litFingerprint
+	z.newCanon.FuncLitFingerprint = litFingerprint
+
 	// Calls exported methods from the ir package
 	z.oldCanon.AnalyzeLoops(z.oldFn)
 	z.oldCanon.NormalizeInductionVariables()
